@@ -208,6 +208,18 @@ func runC17(e *core.Env) error {
 			old := append([]byte(nil), dst...)
 			dst.Write(p)
 			e.Add(core.Case{Op: "bwrite " + core.Hex(old) + " " + core.Hex(p), Impl: core.Hex(dst), Spec: core.Hex(p), Nontrivial: true, Tags: []string{"bwrite"}})
+			// Write COPIES: scribbling over the source afterwards must not change the destination
+			// (neither a reused one nor a fresh, empty one)
+			if len(p) > 0 {
+				var fresh eth.Bytes
+				fresh.Write(p)
+				want := core.Hex(p)
+				for i := range p {
+					p[i] ^= 0xff
+				}
+				e.Add(core.Case{Impl: core.Hex(dst), Spec: want, Key: "bwrite-alias " + core.Hex(old) + " " + want, Nontrivial: true, Tags: []string{"bwrite-no-alias"}})
+				e.Add(core.Case{Impl: core.Hex(fresh), Spec: want, Key: "bwrite-alias-fresh " + want, Nontrivial: true, Tags: []string{"bwrite-no-alias"}})
+			}
 		}
 	}
 	// 4. bint
